@@ -168,7 +168,7 @@ CHECKS["C08"] = {
     "title": "Cached answers age correctly and expire on time",
     "level": "exploration",
     "level_text": "White box without sleeping: generated responses x configured maxima are stored and the (stored, expire) pair read back must respect the lifetime policy table of the statement (TC/nil never stored, errors never displace a live positive entry); entries back-dated by 0..2^32-2 s must be served with TTLs <= max(1, T - elapsed) and >= 1, OPT untouched. Black box: timed histories over hundreds of independent names against the real binary with harness clocks on both sides. Exploration.",
-    "level_note": "The redis second-level backend cannot be exercised offline (no server); lifetime floor of 1 s is accepted as cache-clock granularity.",
+    "level_note": "No real redis server exists offline; the second-level backend runs against a harness-made RESP3 server; lifetime floor of 1 s is accepted as cache-clock granularity.",
     "technique": "property-based testing (rapid): policy-table oracle on generated responses, back-dated entries instead of a clock hook, timed end-to-end histories",
     "parts": [
         {"engine": "P", "pkg": "app/router", "tests": [
@@ -184,7 +184,7 @@ CHECKS["C08"] = {
         ]},
     ],
     "assumptions": [
-        "redis backend not explored (no server in the sandbox)",
+        "the second-level (redis) backend is exercised against the harness's own RESP3 server (kit/fakeredis.go: HELLO, PING, GET, SET [NX] PX); a real redis server's eviction and cluster behaviour is not explored",
         "a lifetime of 1 s for TTL-0 records is within the statement's cache-clock allowance",
     ],
 }
